@@ -191,10 +191,7 @@ fn convert_hgignore_glob(glob: &str, file_path: &Path) -> Result<Regex, Error> {
             })
             .to_string();
 
-        pattern = file_path
-            .to_string_lossy()
-            .to_string()
-            .replace("\\", "\\\\")
+        pattern = regex::escape(&file_path.to_string_lossy())
             .add("/([^/]+/)*")
             .add(&pattern)
             // a glob matches whole path components: `*.o` must not match `a.obj`
@@ -238,7 +235,7 @@ fn convert_hgignore_glob(glob: &str, file_path: &Path) -> Result<Regex, Error> {
 fn convert_hgignore_regexp(regexp: &str, file_path: &Path) -> Result<Regex, Error> {
     #[cfg(not(windows))]
     {
-        let mut pattern = file_path.to_string_lossy().to_string();
+        let mut pattern = regex::escape(&file_path.to_string_lossy());
         if !regexp.starts_with("^") {
             pattern = pattern.add("/([^/]+/)*");
         }
